@@ -116,6 +116,18 @@ int main(int argc, char **argv) {
                 bytes += "\n" + pad + item + "\n_after_huge 1\n";
                 label("huge-token");
             }
+            // repeat one data name, respelled (other letter case), right after itself: in a loop header that is a duplicate which only
+            // normalisation reveals; elsewhere a stray name
+            if (*g::chance(8)) {
+                std::vector<std::pair<size_t, size_t>> names;   // (start, length) of tokens that look like data names
+                for (size_t i = 0; i < bytes.size(); i++) if (bytes[i] == '_' && (i == 0 || strchr(" \t\n\r", bytes[i - 1]))) { size_t j = i; while (j < bytes.size() && !strchr(" \t\n\r", bytes[j])) j++; if (j - i >= 2 && j - i < 80) names.push_back({i, j - i}); i = j; }
+                if (!names.empty()) {
+                    auto nm = names[(size_t) *g::range(0, 99999) % names.size()];
+                    std::string t = bytes.substr(nm.first, nm.second), u; bool changed = false;
+                    for (char ch : t) { if (ch >= 'a' && ch <= 'z') { u += (char) (ch - 32); changed = true; } else if (ch >= 'A' && ch <= 'Z') { u += (char) (ch + 32); changed = true; } else u += ch; }
+                    if (changed) { bytes.insert(nm.first + nm.second, " " + u); label("respelled-duplicate-name"); }
+                }
+            }
             if (*g::chance(80)) { auto ed = *rc::gen::container<std::vector<int>>((size_t) (3 * *g::range(1, 4)), g::range(0, 99999)); bytes = mutate(bytes, ed); label("mutated"); }
             int enc = *rc::gen::weightedElement<int>({{12, 0}, {2, 1}, {1, 2}, {1, 3}, {1, 4}});
             if (enc) { bytes = reencode(bytes, enc, *g::chance(70)); label(enc <= 2 ? "utf16" : "utf32"); }
